@@ -6,6 +6,7 @@ from argparse import (
     SUPPRESS,
     ZERO_OR_MORE,
     Action,
+    ArgumentError,
     HelpFormatter,
     _HelpAction,
 )
@@ -122,7 +123,7 @@ class DefaultHelpFormatter(HelpFormatter):
             for key in parser.required_args:
                 try:
                     default = parser.get_default(key)
-                except NSKeyError:
+                except (KeyError, TypeError, ArgumentError):  # also raised for a broken default config file
                     default = None
                 if default is None and f"[--{key} " in usage:
                     usage = re.sub(f"\\[(--{key} [^\\]]+)]", r"\1", usage, count=1)
